@@ -422,8 +422,9 @@ def main(argv=None):
         if c.notes:
             assumptions.append(f"{c.fq}: {c.notes}")
     for bc in sorted(bounded_clauses):
-        assumptions.append(f"BOUNDED, not proved: clause {bc} is about object identity (no sharing of mutable parts), "
-                           f"which the value-semantics encoding cannot state; it is checked on random native inputs only")
+        assumptions.append(f"BOUNDED, not proved: clause {bc} is stated for the native side only (object identity / "
+                           f"sharing of mutable parts, duplicate-freeness of a list: facts the value-semantics encoding "
+                           f"does not express); it is checked on random native inputs, not discharged by the solver")
     if custom and not custom.get("error"):
         assumptions.extend(custom.get("assumptions", []))
     assumptions.extend(f"spec scan: {s}" for s in specs.assumption_scan if any(
